@@ -5,17 +5,22 @@ package main
 // Two case kinds:
 //
 //	L <src-hex>              result: "pos,line,col" of every token of parser.LexToList (space separated)
-//	E <P|R> <src-hex> <off>  a program with a planted parse (P) / runtime (R) error whose offending
-//	                         token starts at byte offset <off> ("eof": the EOF token);
-//	                         result: "line,col" carried by the parser.Error / util.RuntimeError
+//	E <P|R|X> <src-hex> <off> [<calloff>]
+//	                         a program with a planted parse (P) / runtime (R) error, or a runtime error the
+//	                         program catches itself (X), whose offending token starts at byte offset <off>
+//	                         ("eof": the EOF token); result: see c18Err
 //
 //	S <ref-hex> <var-hex> <tree>  statement separation under inserted comments, see c18sep.go
+//	B <src-hex> <markoff>         a break point on the real debugger, see c18bp.go
+//	U <lo> <hi>                   IsSpace / IsControl / IsNumber / DecodeRune for the code points lo..hi-1
 //
 // The model side (lean/Ecal/Drivers/C18.lean) lexes the same bytes with the lexer model, and
 // recomputes the true line / column from the byte offsets.
 
 import (
+	"encoding/json"
 	"fmt"
+	"regexp"
 	"strconv"
 	"strings"
 	"time"
@@ -30,13 +35,65 @@ func c18Lex(src string) string {
 		return "-"
 	}
 	out := make([]string, len(toks))
+	sawError := false
 	for i, t := range toks {
+		if t.ID == parser.TokenEOF && sawError {
+			// the lexer stopped at an error token; the parser never reads past it and the
+			// property constrains nothing about an EOF token that happens to follow
+			out[i] = "eof-after-error"
+			continue
+		}
+		sawError = sawError || t.ID == parser.TokenError
 		out[i] = fmt.Sprintf("%d,%d,%d", t.Pos, t.Lline, t.Lpos)
 	}
 	return strings.Join(out, " ")
 }
 
-func c18Err(kind, src, off string) string {
+var c18LinePos = regexp.MustCompile(`\(Line:(-?\d+) Pos:(-?\d+)\)`)
+var c18TraceLine = regexp.MustCompile(`\(t:(-?\d+)\)$`)
+
+// c18Text extracts the position a user reads in an error message: "(Line:n Pos:m)".
+func c18Text(msg string) string {
+	m := c18LinePos.FindStringSubmatch(msg)
+	if m == nil {
+		return "notext"
+	}
+	return m[1] + "," + m[2]
+}
+
+// c18Rec is what the program under test handed to x.rec (the except object's fields).
+var c18Rec []interface{}
+
+func c18TraceItem(ts interface{}) string {
+	// the entries run from the innermost call outwards: the last one is the call at calloff
+	var last string
+	switch t := ts.(type) {
+	case []string:
+		if len(t) > 0 {
+			last = t[len(t)-1]
+		}
+	case []interface{}:
+		if len(t) > 0 {
+			last = fmt.Sprint(t[len(t)-1])
+		}
+	}
+	m := c18TraceLine.FindStringSubmatch(last)
+	if m == nil {
+		return "notrace"
+	}
+	return m[1]
+}
+
+// c18Err runs a planted-error program. Result: space separated items, every one of which must be
+// the position of the offending token:
+//
+//	P: <Line,Pos fields of parser.Error> <numbers in the text of Error()>
+//	R: <Line,Pos fields of util.RuntimeError> <numbers in the text of Error()> <line,linepos of the node in MarshalJSON>
+//	X: <e.line,e.pos of the error object an except clause receives>   (the program catches the error itself)
+//
+// and, if calloff is given (the error passes through the call at that offset), the line of the
+// outermost stack trace entry (GetTraceString / e.trace).
+func c18Err(kind, src, off, calloff string) string {
 	if kind == "P" {
 		_, err := parser.Parse("t", src)
 		if err == nil {
@@ -46,7 +103,22 @@ func c18Err(kind, src, off string) string {
 		if !ok {
 			return fmt.Sprintf("OTHER %T", err)
 		}
-		return fmt.Sprintf("%d,%d", pe.Line, pe.Pos)
+		return fmt.Sprintf("%d,%d %s", pe.Line, pe.Pos, c18Text(pe.Error()))
+	}
+	if kind == "X" {
+		c18Rec = nil
+		_, err := evalProgram(src, newGlobalScope(), &memLog{})
+		if err != nil {
+			return "UNCAUGHT " + oneLine(err.Error())
+		}
+		if len(c18Rec) != 3 {
+			return "NOTRECORDED"
+		}
+		res := fmt.Sprintf("%v,%v", c18Rec[0], c18Rec[1])
+		if calloff != "" {
+			res += " " + c18TraceItem(c18Rec[2])
+		}
+		return res
 	}
 	_, err := evalProgram(src, newGlobalScope(), &memLog{})
 	if err == nil {
@@ -66,7 +138,22 @@ func c18Err(kind, src, off string) string {
 	if fmt.Sprint(re.Node.Token.Pos) != off {
 		return fmt.Sprintf("OTHERTOKEN pos=%d", re.Node.Token.Pos)
 	}
-	return fmt.Sprintf("%d,%d", re.Line, re.Pos)
+	js := "nojson"
+	if b, jerr := json.Marshal(err); jerr == nil {
+		var m map[string]interface{}
+		if json.Unmarshal(b, &m) == nil {
+			if n, ok := m["Node"].(map[string]interface{}); ok {
+				if t, ok := n["Token"].(map[string]interface{}); ok {
+					js = fmt.Sprintf("%v,%v", t["Lline"], t["Lpos"])
+				}
+			}
+		}
+	}
+	res := fmt.Sprintf("%d,%d %s %s", re.Line, re.Pos, c18Text(err.Error()), js)
+	if calloff != "" {
+		res += " " + c18TraceItem(re.GetTraceString())
+	}
+	return res
 }
 
 // ---------------------------------------------------------------- generators
@@ -113,13 +200,13 @@ func c18Random(g *Gen, n int) string {
 // well-formed program fragments used in front of / behind a planted error; every fragment is a
 // complete statement or a comment and ends its line
 var c18Lines = []string{
-	"x := 1\n", "y := \"s\"\n", "z := r\"l1\nl2\"\n", "# comment\n", "#\n", "/* c */\n", "/* l1\nl2 */\n", "\n", "\r\n",
-	"\tq := [1,\n 2]\n", "/* é */ w := 'é' # ü\n", "x := 1; y := 2\n", "  \n", "v := {\n \"a\" : 1 # c\n}\n", "if true {\n x := 2\n}\n",
-	"/* a */ /* b\n */ k := 1\n", "s := \"a\\\\\" # c\n", "x := 1 # é\n\n",
+	"u := 1\n", "y := \"s\"\n", "z := r\"l1\nl2\"\n", "# comment\n", "#\n", "/* c */\n", "/* l1\nl2 */\n", "\n", "\r\n",
+	"\tq := [1,\n 2]\n", "/* é */ w := 'é' # ü\n", "u := 1; y := 2\n", "  \n", "v := {\n \"a\" : 1 # c\n}\n", "if true {\n u := 2\n}\n",
+	"/* a */ /* b\n */ k := 1\n", "s := \"a\\\\\" # c\n", "u := 1 # é\n\n",
 }
 
 // in-line material allowed between the start of the line and the planted statement
-var c18Lead = []string{"", "", " ", "\t", "  ", "/* c */ ", "/* l1\nl2 */ ", "/* é */", "x := 1; ", "x := \"é\" ; ", "r\"a\nb\" ; "}
+var c18Lead = []string{"", "", " ", "\t", "  ", "/* c */ ", "/* l1\nl2 */ ", "/* é */", "u := 1; ", "u := \"é\" ; ", "r\"a\nb\" ; "}
 
 type c18Plant struct {
 	kind string // P | R
@@ -153,10 +240,23 @@ var c18Plants = []c18Plant{
 	{"R", "a := r\"x\ny\" + 1", 5, false},
 }
 
+// c18Plant1 puts a plant into random well-formed surroundings. Runtime plants come in four
+// shapes: plain, inside a function that is called further down (stack trace), inside try/except
+// (the error object the program itself sees), and both.
 func c18Plant1(g *Gen, pl c18Plant) string {
 	var sb strings.Builder
 	for k, n := 0, g.R.Intn(5); k < n; k++ {
 		sb.WriteString(g.R.Pick(c18Lines))
+	}
+	shape := 0
+	if pl.kind == "R" {
+		shape = g.R.Intn(4)
+	}
+	inFunc, inTry := shape == 1 || shape == 3, shape >= 2
+	if inFunc {
+		sb.WriteString("func zz() {\n")
+	} else if inTry {
+		sb.WriteString("try {\n")
 	}
 	sb.WriteString(g.R.Pick(c18Lead))
 	off := "eof"
@@ -164,6 +264,26 @@ func c18Plant1(g *Gen, pl c18Plant) string {
 		off = fmt.Sprint(sb.Len() + pl.off)
 	}
 	sb.WriteString(pl.text)
+	calloff := ""
+	if inFunc {
+		sb.WriteString(g.R.Pick([]string{"\n", " # c\n", "\n\n"}) + "}\n")
+		for k, n := 0, g.R.Intn(3); k < n; k++ {
+			sb.WriteString(g.R.Pick(c18Lines))
+		}
+		if inTry {
+			sb.WriteString("try {\n")
+		}
+		sb.WriteString(g.R.Pick(c18Lead))
+		calloff = " " + fmt.Sprint(sb.Len())
+		sb.WriteString("zz()")
+	}
+	if inTry {
+		sb.WriteString(g.R.Pick([]string{"\n", " # c\n", "\n\n"}) + "} except e {\n x.rec(e.line, e.pos, e.trace)\n}")
+	}
+	kind := pl.kind
+	if inTry {
+		kind = "X"
+	}
 	if !pl.last {
 		switch g.R.Intn(4) {
 		case 0:
@@ -178,12 +298,18 @@ func c18Plant1(g *Gen, pl c18Plant) string {
 	} else if g.R.Intn(2) == 0 {
 		sb.WriteString(g.R.Pick([]string{"\n", " ", "\n\n", " \n\t"}))
 	}
-	return "E " + pl.kind + " " + hx(sb.String()) + " " + off
+	return "E " + kind + " " + hx(sb.String()) + " " + off + calloff
 }
 
 func init() {
 	register("C18", &Prop{
 		Timeout: 5 * time.Second,
+		Setup: func() {
+			registerX("rec", func(args []interface{}) (interface{}, error) {
+				c18Rec = args
+				return nil, nil
+			})
+		},
 		Gen: func(g *Gen) {
 			lexCase := func(class, src string) {
 				g.Count(class)
@@ -230,9 +356,12 @@ func init() {
 			}
 			if g.Thorough() {
 				c18SepGen(g, 40, 60000, 60000)
+				c18BreakGen(g, 6000)
 			} else {
 				c18SepGen(g, 8, 3000, 3000)
+				c18BreakGen(g, 600)
 			}
+			c18SweepGen(g)
 			for i := 0; i < nRandom; i++ {
 				n := 2 + g.R.Intn(4)
 				if i%3 == 0 {
@@ -247,13 +376,25 @@ func init() {
 			case len(f) == 2 && f[0] == "L":
 				return c18Lex(unhx(f[1]))
 			case len(f) == 4 && f[0] == "E":
-				return c18Err(f[1], unhx(f[2]), f[3])
+				return c18Err(f[1], unhx(f[2]), f[3], "")
+			case len(f) == 5 && f[0] == "E":
+				return c18Err(f[1], unhx(f[2]), f[3], f[4])
+			case len(f) == 3 && f[0] == "U":
+				lo, _ := strconv.Atoi(f[1])
+				hi, _ := strconv.Atoi(f[2])
+				return c18Sweep(lo, hi)
+			case len(f) == 3 && f[0] == "B":
+				off, _ := strconv.Atoi(f[2])
+				return c18Break(unhx(f[1]), off)
 			case len(f) == 4 && f[0] == "S":
 				return c18Parse(unhx(f[2]))
 			}
 			return "bad-payload"
 		},
 		Tool: func(args []string) int {
+			if len(args) == 2 && args[0] == "extract" {
+				return c18Extract(args[1])
+			}
 			// probe <src as Go-quoted text without the quotes>: tokens, parse error, runtime error
 			for _, a := range args {
 				src, err := strconvUnquote(a)
